@@ -392,12 +392,15 @@ pub fn c04_invariants(h: &History) -> Verdict {
 }
 
 /// Result expected by the model for a pull of `n` positions at cursor `pos`.
-fn model_accepts(info: &SrcInfo, distinct: bool, o: &OpRec, pos: u128, skipped: bool) -> bool {
+fn model_accepts(info: &SrcInfo, distinct: bool, o: &OpRec, pos: u128, skipped: bool, cancellable: bool) -> bool {
     let n = o.requested();
     let len = info.len as u128;
     let ends = skipped || pos >= len || n == 0;
     match &o.res {
-        Res::End => ends,
+        // `cancellable`: a skip_to_end was called before this pull returned. The pull may then have reserved
+        // its positions (moving the cursor, visible to others) and still report the end because the skip
+        // cancelled the reservation: "pulls already in flight MAY still deliver the positions they had reserved".
+        Res::End => ends || cancellable,
         Res::One { idx, item } => {
             if ends {
                 return false;
@@ -460,6 +463,7 @@ pub fn c04_linearizable(h: &History) -> Result<Option<u64>, Violation> {
         }
     }
     let total: usize = per.iter().map(|v| v.len()).sum();
+    let first_skip_call: Option<u64> = h.ops.iter().filter(|o| o.tag == Tag::Skip && o.call != UNTIMED).map(|o| o.call).min();
     // iterative DFS over per-thread prefixes; model state is a function of the prefix vector
     let mut failed: HashSet<Vec<u16>> = HashSet::new();
     let mut states: u64 = 0;
@@ -501,7 +505,8 @@ pub fn c04_linearizable(h: &History) -> Result<Option<u64>, Violation> {
         let (npos, nskipped) = if o.tag == Tag::Skip {
             (pos, true)
         } else {
-            if !model_accepts(info, distinct, o, pos, skipped) {
+            let cancellable = first_skip_call.map_or(false, |c| c < o.ret);
+            if !model_accepts(info, distinct, o, pos, skipped, cancellable) {
                 continue;
             }
             (pos + o.requested() as u128, skipped)
